@@ -347,7 +347,20 @@ def minimize_whitespace_line_differences(source: str, new_source: str) -> Tuple[
         elif identifier == "-" and not "".join(lines).strip():  # Present in old, only whitespace
             new_lines.extend(lines)
 
-    new_source = "".join(new_lines)
+    minimized_source = "".join(new_lines)
+    if (
+        minimized_source != new_source
+        and core.is_valid_python(new_source)
+        and not (
+            core.is_valid_python(minimized_source)
+            and _sources_equivalent(minimized_source, new_source)
+        )
+    ):
+        # Blank lines are not always whitespace: they may be part of a string. In that case the
+        # new source is kept as it is.
+        new_lines = new_source.splitlines(keepends=True)
+    else:
+        new_source = minimized_source
 
     while old_lines and new_lines and old_lines[0] == new_lines[0]:
         old_lines.pop(0)
